@@ -32,6 +32,7 @@ RULE = ('crash points: a file of a small synthetic file set (2 replicas, 5-7 con
         'every file of a multi-file set is cut in turn (counter cuts_in_a_later_file_after_complete_first_file: state carried from the complete first file), every '
         'record boundary is cut exactly in both tiers (cuts_exactly_at_a_record_boundary), and after the cuts of a case the restored complete set must read back '
         'completely (recovery_reads: no state kept from truncated reads); '
+        'every crash point is read with several documented option combinations (counters judged:<format>:<variant>); '
         'outcome must be an exception or exactly the expectation for the n(k) complete records before the cut; a crash point is non-trivial when '
         'the reader was actually run on the cut file and its outcome classified; distinct = (format, reader variant, file-set digest, file, offset)')
 ASSUMPTIONS = ['writers and their boundary tables are validated byte-for-byte against the sample files (C17 self-check)',
@@ -128,8 +129,29 @@ def where_binary(bounds, k):
 # ------------------------------------------------------------------------------------------------
 # binary record formats
 # ------------------------------------------------------------------------------------------------
+def _win(S, rule):
+    """r_start = second, r_stop = last but one configuration of every replica (None when a chain is too short)."""
+    cm = {r: R.cfg_map(S.traj[r], rule) for r in S.reps}
+    if any(len(c) < 7 or c[1] == 0 for c in cm.values()):
+        return None
+    return [cm[r][1] for r in S.reps], [cm[r][-2] for r in S.reps]
+
+
 def variants_rwms(S, d, rng):
-    return [('read_rwms', lambda: S.read(d), lambda nrec: S.expect(nrec=nrec), R.judge_list)]
+    """Every documented option of read_rwms together with the truncation (checklist 13)."""
+    v = [('read_rwms', lambda: S.read(d), lambda nrec: S.expect(nrec=nrec), R.judge_list)]
+    w = _win(S, 'rwms')
+    if w:
+        v.append(('r_start+r_stop', lambda: S.read(d, r_start=list(w[0]), r_stop=list(w[1])), lambda nrec: S.expect(nrec=nrec, r_start=w[0], r_stop=w[1]), R.judge_list))
+        v.append(('r_start', lambda: S.read(d, r_start=list(w[0])), lambda nrec: S.expect(nrec=nrec, r_start=w[0]), R.judge_list))
+    if all(len(S.traj[r]) >= 9 for r in S.reps):
+        v.append(('r_step', lambda: S.read(d, r_step=2), lambda nrec: S.expect(nrec=nrec, r_step=2), R.judge_list))
+    perm = list(S.reps)[::-1]
+    nn = ['lbl|r%d' % r for r in perm]
+    v.append(('files+names-reversed', lambda: S.read(d, files=[S.fname(r) for r in perm], names=list(nn)),
+              lambda nrec: S.expect(nrec=nrec, reps=perm, names=nn), R.judge_list))
+    v.append(('print_err', lambda: S.read(d, print_err=True), lambda nrec: S.expect(nrec=nrec), R.judge_list))
+    return v
 
 
 def variants_msdat(S, d, rng):
@@ -141,13 +163,34 @@ def variants_msdat(S, d, rng):
     def je(cx, tag, res, exp, w):
         return R.judge_edict(cx, tag, res, exp, S, w)
 
-    def eq(nrec):
-        t = S.expect_qtop(c, nrec=nrec)
-        return None if t is None else {'table': t, 'tag': TAG}
-    return [('energy', lambda: oq._extract_flowed_energy_density(d, S.prefix, 1, xmin, S.L), lambda nrec: S.expect_energy(xmin, nrec=nrec), je),
-            ('energy-plaquette', lambda: oq._extract_flowed_energy_density(d, S.prefix, 1, xmin, S.L, plaquette=True),
-             lambda nrec: S.expect_energy(xmin, plaquette=True, nrec=nrec), je),
-            ('qtop', lambda: oq.read_qtop(d, S.prefix, c, L=S.L), eq, R.judge_qtop(S))]
+    def eq(**kw):
+        def f(nrec):
+            t = S.expect_qtop(c, nrec=nrec, **kw)
+            return None if t is None else {'table': t, 'tag': TAG}
+        return f
+    v = [('energy', lambda: oq._extract_flowed_energy_density(d, S.prefix, 1, xmin, S.L), lambda nrec: S.expect_energy(xmin, nrec=nrec), je),
+         ('energy-plaquette', lambda: oq._extract_flowed_energy_density(d, S.prefix, 1, xmin, S.L, plaquette=True),
+          lambda nrec: S.expect_energy(xmin, plaquette=True, nrec=nrec), je),
+         ('energy-no-thermalization', lambda: oq._extract_flowed_energy_density(d, S.prefix, 1, xmin, S.L, assume_thermalization=False),
+          lambda nrec: S.expect_energy(xmin, assume_thermalization=False, nrec=nrec), je),
+         ('qtop', lambda: oq.read_qtop(d, S.prefix, c, L=S.L), eq(), R.judge_qtop(S))]
+    w = _win(S, 'energy')
+    if w:
+        v.append(('energy-plaquette-r_start+r_stop', lambda: oq._extract_flowed_energy_density(d, S.prefix, 1, xmin, S.L, plaquette=True, r_start=list(w[0]), r_stop=list(w[1])),
+                  lambda nrec: S.expect_energy(xmin, plaquette=True, nrec=nrec, r_start=w[0], r_stop=w[1]), je))
+        v.append(('energy-r_stop', lambda: oq._extract_flowed_energy_density(d, S.prefix, 1, xmin, S.L, r_stop=list(w[1])),
+                  lambda nrec: S.expect_energy(xmin, nrec=nrec, r_stop=w[1]), je))
+    if all(len(S.traj[r]) >= 9 for r in S.reps):
+        v.append(('energy-r_step', lambda: oq._extract_flowed_energy_density(d, S.prefix, 1, xmin, S.L, r_step=2), lambda nrec: S.expect_energy(xmin, nrec=nrec, r_step=2), je))
+    wq = _win(S, 'flow')
+    if wq:
+        v.append(('qtop-r_start+r_stop', lambda: oq.read_qtop(d, S.prefix, c, L=S.L, r_start=list(wq[0]), r_stop=list(wq[1])), eq(r_start=wq[0], r_stop=wq[1]), R.judge_qtop(S)))
+    perm = list(S.reps)[::-1]
+    nn = ['lbl|r%d' % r for r in perm]
+    v.append(('qtop-files+names-reversed', lambda: oq.read_qtop(d, S.prefix, c, L=S.L, files=[S.fname(r) for r in perm], names=list(nn)), eq(reps=perm, names=nn), R.judge_qtop(S)))
+    v.append(('energy-files+names-reversed', lambda: oq._extract_flowed_energy_density(d, S.prefix, 1, xmin, S.L, files=[S.fname(r) for r in perm], names=list(nn)),
+              lambda nrec: S.expect_energy(xmin, nrec=nrec, reps=perm, names=nn), je))
+    return v
 
 
 def variants_gfms(S, d, rng):
@@ -155,16 +198,24 @@ def variants_gfms(S, d, rng):
     c = S.c_for_index(int(rng.integers(0, S.ncs + 1)))
     TAG = {'T': S.tmax - 1, 'L': S.L}
 
-    def eq(z):
+    def eq(z, **kw):
         def f(nrec):
-            t = S.expect(c, zeuthen=z, nrec=nrec)
+            t = S.expect(c, zeuthen=z, nrec=nrec, **kw)
             return None if t is None else {'table': t, 'tag': TAG}
         return f
     v = [('qtop-wilson', lambda: oq.read_qtop(d, S.prefix, c, version='sfqcd'), eq(False), R.judge_qtop(S)),
-         ('qtop-zeuthen', lambda: oq.read_qtop(d, S.prefix, c, version='sfqcd', Zeuthen_flow=True), eq(True), R.judge_qtop(S))]
+         ('qtop-zeuthen', lambda: oq.read_qtop(d, S.prefix, c, version='sfqcd', Zeuthen_flow=True, L=S.L), eq(True), R.judge_qtop(S))]
+    w = _win(S, 'flow')
+    if w:
+        v.append(('qtop-zeuthen-r_start+r_stop', lambda: oq.read_qtop(d, S.prefix, c, version='sfqcd', Zeuthen_flow=True, r_start=list(w[0]), r_stop=list(w[1])),
+                  eq(True, r_start=w[0], r_stop=w[1]), R.judge_qtop(S)))
+    perm = list(S.reps)[::-1]
+    nn = ['lbl|r%d' % r for r in perm]
+    v.append(('qtop-wilson-files+names-reversed', lambda: oq.read_qtop(d, S.prefix, c, version='sfqcd', files=[S.fname(r) for r in perm], names=list(nn)),
+              eq(False, reps=perm, names=nn), R.judge_qtop(S)))
     if S.L in R.GF_NORM and S.tmax == S.L + 1 and S.cmax >= 0.3:
         v.append(('gf_coupling', lambda: oq.read_gf_coupling(d, S.prefix, 0.3), lambda nrec: S.expect_coupling(nrec=nrec),
-                  lambda cx, tag, res, e, w: R.compare_table(cx, tag, res, e, w, rtol=1e-12)))
+                  lambda cx, tag, res, e, w_: R.compare_table(cx, tag, res, e, w_, rtol=1e-12)))
     return v
 
 
@@ -172,8 +223,23 @@ def variants_ms5(S, d, rng):
     oq = PE.input.openQCD
     bi = str(rng.choice(F.MS5_BI))
     bb = str(rng.choice(F.MS5_BB))
+    lex = S.lex()
+    idl = {r: S.cfgs[r][:-1] for r in S.reps}
+    perm = list(S.reps)[::-1]
+    nn = ['lbl|r%d' % r for r in S.reps]
     return [('bi', lambda: oq.read_ms5_xsf(d, S.prefix, S.qc, bi), lambda nrec: S.expect(bi, nrec=nrec), R.judge_ms5(S)),
-            ('bb', lambda: oq.read_ms5_xsf(d, S.prefix, S.qc, bb), lambda nrec: S.expect(bb, nrec=nrec), R.judge_ms5(S))]
+            ('bb', lambda: oq.read_ms5_xsf(d, S.prefix, S.qc, bb), lambda nrec: S.expect(bb, nrec=nrec), R.judge_ms5(S)),
+            ('bi-idl', lambda: oq.read_ms5_xsf(d, S.prefix, S.qc, bi, idl=[list(idl[r]) for r in lex]), lambda nrec: S.expect(bi, nrec=nrec, idl=idl), R.judge_ms5(S)),
+            ('bb-names', lambda: oq.read_ms5_xsf(d, S.prefix, S.qc, bb, names=list(nn)), lambda nrec: S.expect(bb, nrec=nrec, names=nn), R.judge_ms5(S)),
+            ('bi-files-reversed', lambda: oq.read_ms5_xsf(d, S.prefix, S.qc, bi, files=[S.fname(r) for r in perm]), lambda nrec: S.expect(bi, nrec=nrec, reps=perm), R.judge_ms5(S))]
+
+
+def tag_of(kind, vname):
+    """One tag per reader code path: plaquette and the selections share the loop of the energy-density reader; Wilson / Zeuthen
+    Qtop and the GF coupling share the sfqcd loop of _read_flow_obs."""
+    if kind == 'ms.dat':
+        return 'ms.dat-energy' if vname.startswith('energy') else 'ms.dat-qtop'
+    return kind
 
 
 BINARY = {
@@ -235,10 +301,8 @@ def case_binary(ctx, kind, idx, rng):
             if r != sorted(S.reps, key=lambda x: F.natural_key(S.files[x]))[0]:
                 ctx.count('cuts_in_a_later_file_after_complete_first_file')
             for vname, call, expect, judge in variants:
-                # one tag per reader code path: the plaquette option shares the loop of the energy-density reader,
-                # Wilson / Zeuthen Qtop and the GF coupling share the sfqcd loop of _read_flow_obs
-                fmt = {'ms.dat': {'energy': 'ms.dat-energy', 'energy-plaquette': 'ms.dat-energy', 'qtop': 'ms.dat-qtop'}.get(vname),
-                       'ms5_xsf': 'ms5_xsf'}.get(kind, kind)
+                fmt = tag_of(kind, vname)
+                ctx.count('judged:%s:%s' % (kind, vname))
                 E.fmt = fmt
                 E.point(vname, setdig, S.files[r], k)
                 try:
@@ -276,7 +340,7 @@ def case_binary(ctx, kind, idx, rng):
                 f.write(S.bytes[cur])
         # recovery: after all those failed / partial reads the complete set must read back completely (no state kept)
         for vname, call, expect, judge in variants:
-            fmt = {'ms.dat': {'energy': 'ms.dat-energy', 'energy-plaquette': 'ms.dat-energy', 'qtop': 'ms.dat-qtop'}.get(vname)}.get(kind, kind)
+            fmt = tag_of(kind, vname)
             ctx.ev()
             ctx.count('recovery_reads')
             try:
@@ -342,7 +406,12 @@ def case_sfcf(ctx, kind, idx, rng):
                 pick = [S.corder[0], S.corder[len(S.corder) // 2], S.corder[-1]]
             else:
                 pick = [S.order[inf['name']][0]]
-            vkeys[rel] = [(k_, bool(srng.integers(0, 2))) for k_ in dict.fromkeys(pick)]
+            # every reader variant carries one documented option (checklist 13): none / names / files with or without the cut file / replica
+            opts = ['none', 'names'] if layout == 'a' else ['none', 'names', 'files-excluding-cut-file', 'files-including-cut-file', 'replica-excluding-cut-replica']
+            o0 = rels.index(rel)
+            vkeys[rel] = [(k_, bool(srng.integers(0, 2)), opts[(o0 + i_) % len(opts)]) for i_, k_ in enumerate(dict.fromkeys(pick))]
+            if len(vkeys[rel]) == 1:
+                vkeys[rel].append((vkeys[rel][0][0], not vkeys[rel][0][1], opts[(o0 + 1) % len(opts)]))
         targets = rels
         if ctx.tier == 'quick' and len(rels) > 8:
             targets = sorted(rels[i] for i in srng.choice(len(rels), size=8, replace=False))
@@ -388,10 +457,29 @@ def case_sfcf(ctx, kind, idx, rng):
                 ctx.count('cuts_exactly_at_a_record_boundary')
             if inf['rep'] != min(S.reps) or (layout != 'a' and inf['cfg'] != S.cfgs[inf['rep']][0]):
                 ctx.count('cuts_in_a_later_file_after_complete_first_file')
-            for key, im in vkeys[rel]:
-                vname = '%s:%s' % ('/'.join(str(x) for x in key), 'im' if im else 're')
+            for key, im, opt in vkeys[rel]:
+                vname = '%s:%s:%s' % ('/'.join(str(x) for x in key), 'im' if im else 're', opt)
                 E.point(vname, setdig, rel, k)
+                ctx.count('judged:%s:%s' % (fmt, opt))
                 judge = R.judge_sfcf(S, key, im)
+                r = inf['rep']
+                nn = ['lbl|r%d' % x for x in S.reps]
+                kw = {'im': True} if im else {}
+                ekw = {}
+                if opt == 'names':
+                    kw['names'] = list(nn)
+                    ekw['names'] = nn
+                elif opt == 'files-excluding-cut-file':
+                    kw['files'] = [[S.cfile(rr, x) for x in S.cfgs[rr] if (rr, x) != (r, inf['cfg'])][::-1] for rr in S.reps]
+                elif opt == 'files-including-cut-file':
+                    kw['files'] = [[S.cfile(rr, x) for x in S.cfgs[rr]][::-1] for rr in S.reps]
+                elif opt == 'replica-excluding-cut-replica':
+                    others = [rr for rr in S.reps if rr != r]
+                    if others:
+                        kw['replica'] = [S.rdir(x) for x in others]
+                        ekw['reps'] = others
+                    else:
+                        opt = 'none'
                 if layout == 'a':
                     chunks = inf['chunks']
                     n = sum(1 for c, s0, e0, info in chunks if e0 <= k)
@@ -404,19 +492,18 @@ def case_sfcf(ctx, kind, idx, rng):
                 else:
                     where = sfcf_where(inf, k, key, im)[0]
                 try:
-                    res = S.read(d, key, **({'im': True} if im else {}))
+                    res = S.read(d, key, **kw)
                 except Exception as e:
                     E.raised(e, where)
                     continue
                 ctx.ev()
-                r = inf['rep']
                 if layout == 'a':
                     cf = lambda m: {rr: (S.cfgs[rr] if rr != r else S.cfgs[r][:m]) for rr in S.reps}   # noqa: E731
 
                     def exp_n(m):
-                        kk = (key, im, r, m)
+                        kk = (key, im, r, m, opt)
                         if kk not in cache:
-                            cache[kk] = S.expect(key, im=im, cfgs=cf(m))
+                            cache[kk] = S.expect(key, im=im, cfgs=cf(m), **ekw)
                         return cache[kk]
                     ntot = len(chunks)
                     if matches(judge, ctx, res, exp_n(n)):
@@ -439,8 +526,14 @@ def case_sfcf(ctx, kind, idx, rng):
                     ctx.cell(fmt, where, mech)
                 else:
                     c = inf['cfg']
-                    full = cache.setdefault((key, im, 'full'), S.expect(key, im=im))
-                    dropped = cache.setdefault((key, im, 'drop', r, c), S.expect(key, im=im, drop={(r, c)}))
+                    if opt == 'replica-excluding-cut-replica':
+                        full = cache.setdefault((key, im, 'others', r), S.expect(key, im=im, **ekw))
+                        dropped = None
+                    else:
+                        full = cache.setdefault((key, im, 'full', opt), S.expect(key, im=im, **ekw))
+                        dropped = cache.setdefault((key, im, 'drop', r, c, opt), S.expect(key, im=im, drop={(r, c)}, **ekw))
+                        if opt == 'files-excluding-cut-file':
+                            full = None          # the cut file is not selected: only the selection may come back
                     if matches(judge, ctx, res, full):
                         ctx.count('reads_returned_exact_from_complete_block')
                         ctx.count('reads_returned_prefix')
@@ -451,8 +544,8 @@ def case_sfcf(ctx, kind, idx, rng):
                         continue
                     mech = 'number-cut-mid-digits' if where == 'inside-used-number' else 'wrong-numbers'
                     t = ctx.trial()
-                    judge(t, fmt, res, full, {'_ekw': {}})
-                    ctx.violation('%s:%s' % (fmt, mech), {'file': rel, 'cut_at': k, 'size': len(content[rel]), 'cut_in': where, 'key': list(key), 'im': im,
+                    judge(t, fmt, res, full or dropped, {'_ekw': {}})
+                    ctx.violation('%s:%s' % (fmt, mech), {'file': rel, 'cut_at': k, 'size': len(content[rel]), 'cut_in': where, 'key': list(key), 'im': im, 'option': opt,
                                                          'first_difference': t.violations[:1]})
                     ctx.cell(fmt, where, mech)
         if cur is not None:
@@ -460,7 +553,7 @@ def case_sfcf(ctx, kind, idx, rng):
                 f.write(content[cur])
         done = set()
         for rel, _ in mine:
-            for key, im in vkeys[rel]:
+            for key, im, _o in vkeys[rel]:
                 if (key, im) in done:
                     continue
                 done.add((key, im))
@@ -526,12 +619,31 @@ def case_hadrons(ctx, kind, idx, rng):
                 f.write(content[c][:k])
             E.point(part_, setdig, S.files[c], k)
             where = 'superblock' if k < 96 else ('inside' if k < len(content[c]) - 1 else 'last-byte')
+            hopt = ['none', 'idl-excluding-cut-file', 'idl-including-cut-file'][(k + c) % 3]
+            ctx.count('judged:hadrons:%s' % hopt)
+            want = full
+            sel = None
+            if hopt == 'idl-excluding-cut-file':
+                sel = [x for x in S.cfgs if x != c]
+                want = S.expect(k0, part_, idl=sel)
+                judge = R.judge_hadrons(S, k0, part_)
+            elif hopt == 'idl-including-cut-file':
+                sel = list(S.cfgs)
             try:
-                res = hd.read_hd5(os.path.join(d, S.stem), S.ens, 'meson', attrs=k0, part=part_)
+                res = hd.read_hd5(os.path.join(d, S.stem), S.ens, 'meson', attrs=k0, part=part_, **({'idl': sel} if sel else {}))
             except Exception as e:
                 E.raised(e, where)
                 continue
             ctx.ev()
+            if sel is not None and hopt == 'idl-excluding-cut-file':
+                t_ = ctx.trial()
+                R.judge_hadrons(S, k0, part_)(t_, 'm', res, want, {'_idl': sel})
+                if not t_.violations:
+                    ctx.count('reads_returned_prefix')
+                    ctx.cell(fmt, where, 'selection-without-cut-file')
+                    continue
+                ctx.violation('hadrons:wrong-numbers', {'file': S.files[c], 'cut_at': k, 'option': hopt, 'first_difference': t_.violations[:1]})
+                continue
             if matches(judge, ctx, res, full):
                 ctx.count('reads_returned_exact_from_complete_block')
                 ctx.count('reads_returned_prefix')
@@ -650,7 +762,7 @@ def case_archive(ctx, kind, idx, rng):
 # ------------------------------------------------------------------------------------------------
 def plan(tier):
     if tier == 'quick':
-        s = {'rwms-1.4': 1, 'rwms-1.6': 1, 'rwms-2.0': 1, 'ms.dat': 2, 'gfms': 1, 'ms5_xsf': 1, 'sfcf_o': 1, 'sfcf_c': 1, 'sfcf_a': 1, 'hadrons': 1}
+        s = {'rwms-1.4': 2, 'rwms-1.6': 2, 'rwms-2.0': 2, 'ms.dat': 2, 'gfms': 1, 'ms5_xsf': 2, 'sfcf_o': 1, 'sfcf_c': 1, 'sfcf_a': 1, 'hadrons': 1}
         a = 1
     else:
         s = {'rwms-1.4': 4, 'rwms-1.6': 4, 'rwms-2.0': 4, 'ms.dat': 5, 'gfms': 2, 'ms5_xsf': 3, 'sfcf_o': 2, 'sfcf_c': 2, 'sfcf_a': 3, 'hadrons': 2}
